@@ -147,6 +147,12 @@ pub fn expected_with(g: &Graph, h: &History, disk: &BTreeMap<String, String>, mo
             }
         }
         if let Some(sh) = shadow {
+            if let Some(r) = sh.rec.get(&n.id) {
+                // known for sure even where the ground truth otherwise abstains: built from another set of input names
+                if r.input_names != g.input_names(&n.id) {
+                    ok = false;
+                }
+            }
             if !sh.dirty.contains(&n.id) {
                 match sh.rec.get(&n.id) {
                     // never succeeded (since the last wipe): not up to date, whatever the history says
